@@ -394,6 +394,10 @@ func Run(cfg Config) *hx.Result {
 	}
 	if len(cfg.Replay) > 0 {
 		for _, line := range cfg.Replay {
+			if strings.HasPrefix(line, "action-result-shape") {
+				resultShapes(r, cfg.Module)
+				continue
+			}
 			xs, err := hx.ParseLine(line)
 			if err != nil || len(xs) != 5 || xs[0].Atom != "serve" {
 				panic("c08: cannot replay " + line)
@@ -414,6 +418,7 @@ func Run(cfg Config) *hx.Result {
 			runOne(k, o)
 		}
 	}
+	resultShapes(r, cfg.Module)
 	return r
 }
 
